@@ -73,7 +73,7 @@ class Scheduler:
             if not t.done:
                 t.resume.release()
         for t in self.tasks:
-            t.thread.join(10)
+            t.thread.join(3)
 
 
 class Task:
@@ -101,6 +101,10 @@ class Task:
             self.sched.wake.release()
 
     def yield_(self, where, pred=None):
+        if self.sched.killed:
+            # the run is over (the main task finished): code that keeps communicating in a finally
+            # clause must not park again
+            raise _Killed()
         self.where, self.pred = where, pred
         self.sched.wake.release()
         self.resume.acquire()
